@@ -33,6 +33,7 @@ import (
 	"path/filepath"
 	"strings"
 	"sync"
+	"sync/atomic"
 	"testing"
 	"time"
 
@@ -753,6 +754,7 @@ func c16SplitDirected(t *testing.T, rec *ev.Recorder) {
 // c16SplitHTTP: the pieces are served over loopback HTTP and opened with the repository's own remote
 // ReaderAt (range cache in front), as the server does for pieces given by URL.
 func c16SplitHTTP(t *testing.T, rec *ev.Recorder) {
+	var capBytes, capped atomic.Int64
 	bodies := map[string][]byte{}
 	var mu sync.RWMutex
 	srv := httptest.NewServer(http.HandlerFunc(func(w http.ResponseWriter, r *http.Request) {
@@ -762,6 +764,25 @@ func c16SplitHTTP(t *testing.T, rec *ev.Recorder) {
 		if !ok {
 			http.NotFound(w, r)
 			return
+		}
+		if cp := capBytes.Load(); cp > 0 {
+			// a gateway that caps the size of a range: a well-formed 206 that carries fewer bytes than asked for
+			var a, e int64
+			if n, _ := fmt.Sscanf(r.Header.Get("Range"), "bytes=%d-%d", &a, &e); n == 2 && a >= 0 && a < int64(len(b)) {
+				end := a + cp
+				if end > int64(len(b)) {
+					end = int64(len(b))
+				}
+				if end > e+1 {
+					end = e + 1
+				}
+				w.Header().Set("Content-Range", fmt.Sprintf("bytes %d-%d/%d", a, end-1, len(b)))
+				w.Header().Set("Content-Length", fmt.Sprint(end-a))
+				w.WriteHeader(http.StatusPartialContent)
+				w.Write(b[a:end])
+				capped.Add(1)
+				return
+			}
 		}
 		http.ServeContent(w, r, "piece.car", time.Unix(1_600_000_000, 0), bytes.NewReader(b))
 	}))
@@ -820,5 +841,59 @@ func c16SplitHTTP(t *testing.T, rec *ev.Recorder) {
 		if crossed {
 			rec.Distinct(fmt.Sprintf("http:h59:%v", sizes))
 		}
+		// ---- the same pieces behind a gateway that caps ranges at 7 bytes while the reads are made, then
+		// recovers: a read either fails or returns the exact bytes, and after the recovery every read is exact
+		fx2, err := c16NewSplitFx("", "http", 59, sizes, ph, pad, seed, func(name string, body []byte) string {
+			key := fmt.Sprintf("v%d-capped-%s", v, name)
+			mu.Lock()
+			bodies[key] = body
+			mu.Unlock()
+			return srv.URL + "/" + key
+		})
+		if err != nil {
+			rec.Inconclusive(fmt.Sprintf("http-backed pieces could not be opened: %v", err))
+			return
+		}
+		reads := c16DirectedReads(rng, bounds, total, 12)
+		for pass := 0; pass < 2; pass++ {
+			if pass == 0 {
+				capBytes.Store(7)
+			} else {
+				capBytes.Store(0)
+			}
+			for _, ol := range reads {
+				if ol[1] <= 0 || ol[0] >= total {
+					continue
+				}
+				c := c16ReadCase{Part: "split", Kind: "http-capped-ranges", Sizes: sizes, Seed: seed, Off: ol[0], Len: int(ol[1]), HdrLen: 59, PieceHdr: ph, Pad: pad}
+				p := buf[:ol[1]]
+				n, rerr, pn := c16ReadGuard(fx2.scr, p, ol[0])
+				rec.Eval(1)
+				rec.Count("http_reads_capped_gateway", 1)
+				if pn != nil {
+					rec.Violation("SplitCarReader.ReadAt/panic", fmt.Sprint(pn), c)
+					continue
+				}
+				want := fx2.ref[ol[0]:]
+				if int64(len(want)) > ol[1] {
+					want = want[:ol[1]]
+				}
+				if rerr == nil || (rerr == io.EOF && n == len(want)) {
+					if n != len(want) || !bytes.Equal(p[:n], want) {
+						what := "while the gateway caps ranges"
+						if pass == 1 {
+							what = "after the gateway recovered"
+						}
+						rec.Violation("SplitCarReader.ReadAt/wrong-bytes", fmt.Sprintf("http pieces, %s: ReadAt(off=%d,len=%d) reports success (n=%d err=%v) but the bytes differ from the original CAR", what, ol[0], ol[1], n, rerr), c)
+					}
+				} else if pass == 1 {
+					rec.Violation("SplitCarReader.ReadAt/error-after-recovery", fmt.Sprintf("http pieces, gateway recovered: ReadAt(off=%d,len=%d) fails: %v", ol[0], ol[1], rerr), c)
+				}
+			}
+		}
+		capBytes.Store(0)
+		fx2.scr.Close()
+		rec.Distinct(fmt.Sprintf("http-capped:h59:%v", sizes))
+		rec.Count("http_responses_capped", int(capped.Swap(0)))
 	}
 }
